@@ -5,10 +5,9 @@
                                     f228380, 8d47eb7, 5732bc1); tied on every run by harness/props/c15.py: outcome and the complete tree
                                     afterwards on trees x paths x namespaces
    eval       XPath/Eval.v          the evaluator mirror of C06
-   vis        the caller's ambient default filter.  append_children adds after the last visible child, and -- open
-              finding C15-ambient-filter -- _create_by_xpath evaluates its steps under it: C15_finds / C15_idem /
-              C15_minimal hold for every filter that lets tag nodes through (the default one does), C15_fault_unchanged
-              and the refusals for every filter; C15_ambient_filter_refuted shows what a filter that hides tag nodes does
+   vis        the caller's ambient default filter: since fix 29367a2 (_create_by_xpath is decorated with
+              @altered_default_filters(), as xpath() always was) nothing depends on it; every theorem is stated for
+              every vis
    m          ONE mapping for query and creation: `namespaces` is None or a non-empty mapping (since fix 5732bc1 the code builds the same mapping for both;
               C15_fault_unchanged and the refusals are stated for two arbitrary mappings)
 
@@ -22,11 +21,11 @@ From Delb.XPath Require Import Ast Nav Eval LocPath FetchCreate FetchCreateFacts
 
 (* after a successful call the same expression selects exactly the returned node *)
 Theorem C15_finds : forall vis root m ab ss q t0 t' p,
-  tags_visible vis -> forallb (step_good m) ss = true -> ss <> [] -> subtree root q = Some t0 -> is_tag_t t0 = true ->
+  forallb (step_good m) ss = true -> ss <> [] -> subtree root q = Some t0 -> is_tag_t t0 = true ->
   foc vis root m m [LocationPath ab ss] (0 :: q) = FocOk t' p ->
   exists n, eval (docnode t') m [LocationPath ab ss] (ctx_nd t' (0 :: q)) = Ok [n] /\ fst n = p.
 Proof.
-  intros vis root m ab ss q t0 t' p Hv G Hne Hs Ht H. destruct ab.
+  intros vis root m ab ss q t0 t' p G Hne Hs Ht H. destruct ab.
   - destruct ss as [|s r]; [congruence|]. eapply foc_finds_absolute; eauto.
   - eapply foc_finds_relative; eauto.
 Qed.
@@ -34,12 +33,12 @@ Print Assumptions C15_finds.
 
 (* calling it again returns the same node and changes nothing *)
 Theorem C15_idem : forall vis root m ab ss q t0 t' p,
-  tags_visible vis -> forallb (step_good m) ss = true -> ss <> [] -> subtree root q = Some t0 -> is_tag_t t0 = true ->
+  forallb (step_good m) ss = true -> ss <> [] -> subtree root q = Some t0 -> is_tag_t t0 = true ->
   foc vis root m m [LocationPath ab ss] (0 :: q) = FocOk t' p ->
   foc vis t' m m [LocationPath ab ss] (0 :: q) = FocOk t' p.
 Proof.
-  intros vis root m ab ss q t0 t' p Hv G Hne Hs Ht H.
-  destruct (C15_finds vis root m ab ss q t0 t' p Hv G Hne Hs Ht H) as (n & He & <-).
+  intros vis root m ab ss q t0 t' p G Hne Hs Ht H.
+  destruct (C15_finds vis root m ab ss q t0 t' p G Hne Hs Ht H) as (n & He & <-).
   apply foc_idem; [|exact He].
   destruct (locatable [LocationPath ab ss]) eqn:L; [reflexivity|].
   rewrite (foc_not_accepted vis root m m _ (0 :: q) L) in H. discriminate H.
@@ -51,7 +50,7 @@ Print Assumptions C15_idem.
    the chain hangs below the deepest existing match and is named and attributed as the steps say is C15_finds: the
    expression selects its last element through it. *)
 Theorem C15_minimal : forall vis root m ab ss q t0 t' p,
-  tags_visible vis -> forallb (step_good m) ss = true -> subtree root q = Some t0 -> is_tag_t t0 = true ->
+  forallb (step_good m) ss = true -> subtree root q = Some t0 -> is_tag_t t0 = true ->
   foc vis root m m [LocationPath ab ss] (0 :: q) = FocOk t' p ->
   t' = root \/ (ab = false /\ exists t0', grown t0 t0' /\ t' = replace_at root q t0') \/ (ab = true /\ grown root t').
 Proof. exact foc_minimal. Qed.
@@ -83,9 +82,6 @@ Theorem C15_no_fault_after_creation : forall vis m r pos n, forallb loc_step r =
   exists n' p, create_in vis m r pos n = COk n' p.
 Proof. exact chain_no_fault_loc. Qed.
 Print Assumptions C15_no_fault_after_creation.
-
-Lemma default_filter_shows_tags : tags_visible default_vis.
-Proof. intros t H. unfold default_vis. destruct (ipayload t); try discriminate; reflexivity. Qed.
 
 (* ---- the hypotheses are satisfiable; the model's result is the tree the implementation leaves behind *)
 Example C15_example :
@@ -128,9 +124,9 @@ Example C15_empty_mapping_fixed : f_empty_me = f_empty_mc /\
              foc default_vis t' f_empty_me f_empty_mc f_empty_expr [0%nat] = FocOk t' f_empty_pos.
 Proof. split; [reflexivity|]. eexists. split; [vm_compute; reflexivity|]. split; vm_compute; reflexivity. Qed.
 
-(* ---- open finding C15-ambient-filter: under `with altered_default_filters(is_comment_node):` the steps of the creation
-   walk see no tag node: `a/b` on <r><a/></r> (f_amb_vis) does not find the existing a and adds a second branch *)
-Theorem C15_ambient_filter_refuted :
-  exists t' p, foc (vis_of 3) f_vis_tree f_vis_me f_vis_mc f_vis_expr [0%nat] = FocOk t' p /\
-               content t' = content f_vis_after /\ p = [0; 1; 0]%nat.
-Proof. eexists _, _. split; [vm_compute; reflexivity|]. split; vm_compute; reflexivity. Qed.
+(* ---- regression example for C15-ambient-filter (29367a2): under `with altered_default_filters(is_comment_node):` the
+   creation walk used to see no tag node; now `a/b` on <r><a/></r> finds the existing a and adds b below it *)
+Example C15_ambient_filter_fixed :
+  exists t', foc (vis_of 3) f_vis_tree f_vis_me f_vis_mc f_vis_expr [0%nat] = FocOk t' [0; 0; 0]%nat /\
+             content t' = content f_vis_after.
+Proof. eexists. split; vm_compute; reflexivity. Qed.
